@@ -55,6 +55,10 @@ class Contract:
         Default: raising is never allowed on inputs satisfying `requires`."""
         return z3.BoolVal(False)
 
+    def cross(self, cfg, paths):
+        """optional: clauses over ALL paths of one configuration: list of (name, hyps, goal[, tactics])"""
+        return []
+
     def cover_hint(self, cfg, inputs):
         """optional: equalities fixing inputs to a concrete witness, added to the cover (vacuity) query only"""
         return []
@@ -136,7 +140,9 @@ class Check:
                     for key in getattr(cx, "_seen", ()):
                         if isinstance(key, tuple) and key[0] == "atom" and "!" not in key[1] and not key[1].startswith("const_"):
                             auto_hint += [z3.Real(f"cos!{key[1]}") == 1, z3.Real(f"sin!{key[1]}") == 0, z3.Real(key[1]) == 0]
-                    self.obls.append(Obl(f"{tag}.cover@p{k}", facts + auto_hint + list(c.cover_hint(cfg, inputs)), z3.BoolVal(False), kind="cover", expect="sat", contract=c, cfg=cfg, clause=f"{tag}.cover", tactics=()))
+                    cov = Obl(f"{tag}.cover@p{k}", facts + list(c.cover_hint(cfg, inputs)), z3.BoolVal(False), kind="cover", expect="sat", contract=c, cfg=cfg, clause=f"{tag}.cover", tactics=())
+                    cov.retry_hyps = facts + auto_hint + list(c.cover_hint(cfg, inputs))
+                    self.obls.append(cov)
                     if out[0] == "return":
                         try:
                             clauses = c.post(cx, cfg, inputs, out[1])
@@ -147,11 +153,12 @@ class Check:
                         for cl in clauses:
                             nm, goal = cl[0], cl[1]
                             tac = cl[2] if len(cl) > 2 else ("poly", "linear")
+                            extra = list(cl[3]) if len(cl) > 3 else []
                             if isinstance(goal, SB):
                                 goal = goal.t
                             if isinstance(goal, bool):
                                 goal = z3.BoolVal(goal)
-                            self.obls.append(Obl(f"{tag}.post.{nm}@p{k}", facts, goal, kind="post", contract=c, cfg=cfg, clause=f"{tag}.post.{nm}", tactics=tac, meta={"path": k}))
+                            self.obls.append(Obl(f"{tag}.post.{nm}@p{k}", facts + extra, goal, kind="post", contract=c, cfg=cfg, clause=f"{tag}.post.{nm}", tactics=tac, meta={"path": k}))
                     else:
                         e = out[1]
                         allowed = c.raises(cx, cfg, inputs, e)
@@ -159,6 +166,16 @@ class Check:
                                              clause=f"{tag}.safe.no-unexpected-{e.exc_type}", meta={"path": k, "lineno": e.lineno, "exception": str(e)}, tactics=()))
                 finally:
                     sym.CUR[0] = None
+            try:
+                sym.CUR[0] = sym.PathCtx([])
+                for cl in (c.cross(cfg, [(cx, getattr(cx, "inputs", None), out) for cx, out in paths]) or []):
+                    nm, hy, goal = cl[0], cl[1], cl[2]
+                    tac = cl[3] if len(cl) > 3 else ()
+                    self.obls.append(Obl(f"{tag}.cross.{nm}", list(hy), goal, kind="post", contract=c, cfg=cfg, clause=f"{tag}.cross.{nm}", tactics=tac))
+            except Unsupported as e:
+                self.unsupported.append((fname, c.cfg_name(cfg), f"cross-path clause: {e}"))
+            finally:
+                sym.CUR[0] = None
             if len(self.obls) == n_obl_before:
                 self.faults.append(f"{tag}: zero obligations generated")
 
@@ -221,6 +238,13 @@ class Check:
         for o in self.obls:
             if o.result is None:
                 o.result = res[o.name]
+        # vacuity checks that the solver could not decide: retry with a concrete witness for the angle atoms
+        retry = [o for o in self.obls if o.kind == "cover" and o.result["verdict"] == "unknown" and getattr(o, "retry_hyps", None)]
+        if retry:
+            res2 = solve.solve_all([(o.name, solve.serialise(o.retry_hyps, o.goal), ()) for o in retry], timeout_ms=self.timeout_ms)
+            for o in retry:
+                if res2[o.name]["verdict"] == "sat":
+                    o.result = res2[o.name]
 
     def _write_replay(self, tag, body):
         d = os.path.join(VERIF, "replays")
